@@ -735,6 +735,9 @@ func (fr *Frame) lookupLocal(name string, st *State, at *ssa.BasicBlock) (Val, b
 	if phi != nil {
 		return fr.regs[phi], true
 	}
+	if v, ok := fr.staleDbg[name]; ok {
+		return v, true
+	}
 	if v, ok := fr.dbgVals[name]; ok {
 		if val, ok2 := fr.regs[v]; ok2 {
 			if val.Addr != nil {
